@@ -5,10 +5,10 @@ package rules
 // access-path keys, callee success summaries and functional-option contexts).
 
 import (
-	"os"
 	"fmt"
 	"go/token"
 	"go/types"
+	"os"
 	"regexp"
 	"sort"
 	"strings"
